@@ -132,6 +132,11 @@ struct BlendRowMask;
 
 fn blend_row_mask<T: blend::Blend>(src: &[u32], mask: &[u8], dst: &mut [u32]) {
     for ((dst, src), mask) in dst.iter_mut().zip(src).zip(mask) {
+        // an uncovered pixel must keep its value: lerp() with a weight of
+        // alpha_to_alpha256(0) == 1 would still move it towards the blend result
+        if *mask == 0 {
+            continue;
+        }
         *dst = lerp(
             *dst,
             T::blend(*src, *dst),
